@@ -216,6 +216,17 @@ func c18Run(c *fw.Ctx) {
 	future, past := harness.At(time.Hour), harness.At(-time.Minute)
 
 	mon.source = "dedicated-product"
+	if c.Replay != nil && strings.HasPrefix(c.Replay.Scenario, "re-driven/") {
+		// a violation seen while another harness was re-driven is re-executed by re-driving that harness
+		// again, unsharded, under the monitor
+		name := strings.TrimPrefix(c.Replay.Scenario, "re-driven/")
+		runs := map[string]func(*fw.Ctx){"C01": c01Run, "C06": c06Run, "C07": c07Run, "C08": c08Run, "C09": c09Run, "C13": c13Run}
+		if run := runs[name]; run != nil {
+			mon.source, mon.res = c.Replay.Scenario, c.Res
+			run(&fw.Ctx{Tier: "quick", Seed: c.Seed, NShards: 1, Res: fw.NewResult()})
+		}
+		return
+	}
 	drive(c, "dedicated-product", -1, func(x *explore.Exec, owned bool) {
 		mon.choices = x.Choices
 		secure := x.Choose("secure-cookies", 2) == 1
